@@ -78,6 +78,23 @@ func standardPhases(mons []string, suffix int, thorough bool) []Phase {
 		add("S2 static3, windows at seed positions 12,17,22, all sequences of length 2 over 12 actions", s2Items(w3, []int{12, 17, 22}, 2, n3, mons, suffix))
 		add("S2 join3to4, windows inside the activation window (positions 24,40), length 2 over 22 actions", s2Items(wj, []int{24, 40}, 2, n4, mons, suffix))
 	}
+	if mons[len(mons)-1] == "C01" {
+		// reads through the node's API (validator sets of rounds that do not exist yet, statistics) at one node, at
+		// every position of the seeds with a validator-set change: a read must not influence consensus
+		var rd []sched.Item
+		for _, scn := range []string{scJoin3, scLeave4} {
+			var devs []sched.Dev
+			for i := 0; i < 4; i++ {
+				devs = append(devs, sched.Dev{Alt: sched.Action{K: "Q", A: i, B: 12}, Ins: true})
+			}
+			st := 2
+			if thorough {
+				st = 1
+			}
+			rd = append(rd, s3Items(scn, 1, seedPositions(scn, 0, 0, st), devs, mons, suffix)...)
+		}
+		add("join3to4 / leave4to3 with one API read (validator sets of the next 12 rounds, all sets, statistics) at one node inserted at a position (every 2nd; thorough every)", rd)
+	}
 	if mons[len(mons)-1] == "C04" {
 		// the application applies its k-th block but the reply is lost (babble sees a failed commit call): whatever
 		// babble does about it, no event may be committed a second time. Only the C04 monitor applies under this
